@@ -180,12 +180,18 @@ class FnView:
         if c is None:
             return None
         n = self.byid.get(c)
+        neg = False
         while n is not None:
             m = strip(n)
             if m.get("k") == "Bin" and m.get("op") in ("&&", "||"):
                 n = m["rhs"]
                 continue
-            return m
+            if m.get("k") == "Un" and m.get("op") == "!" and strip(m["e"]).get("k") == "Bin" and strip(m["e"]).get("op") in ("&&", "||"):
+                # !(a || b): the block that evaluates b branches on !b
+                neg = not neg
+                n = m["e"]
+                continue
+            return {"k": "Un", "op": "!", "e": m, "l": m.get("l")} if neg else m
         return None
 
     def line(self, n):
